@@ -253,3 +253,37 @@ def show(e, depth=0):
     if e[0] == "alt":
         return " | ".join(show(a) for a in e[1])
     return "?%s" % (e[1],)
+
+
+def roots(prog, body, place_or_op, depth=0):
+    """identity of the object(s) an operand may denote: the creation sites ('site', body id, bb) of call / aggregate origins
+    (two `vec![false; n]` have equal provenance trees but different roots), ('param', fn, k) for parameters; closures' captures are
+    followed to the enclosing function, references and views are looked through"""
+    out = set()
+    if depth > MAXD:
+        return {("?", "depth")}
+    for o in origins(body, place_or_op, transparent=_VIEW):
+        if o.kind == "upvar":
+            from .tags import _closure_capture_operand
+
+            par, cap = _closure_capture_operand(prog, body, o.data)
+            q = op_place(cap) if cap is not None else None
+            if q is None:
+                out.add(("?", "capture"))
+                continue
+            ds = par.defs.get(q["l"], [])
+            if not q["p"] and len(ds) == 1 and ds[0].si is not None and ds[0].node["k"] == "assign" and ds[0].node["rv"]["k"] == "ref":
+                q = ds[0].node["rv"]["place"]
+            out |= roots(prog, par, {"l": q["l"], "p": list(q["p"])}, depth + 1)
+        elif o.kind == "param":
+            if body.kind == "closure":
+                out.add(("?", "closure parameter"))
+            else:
+                out.add(("param", body.path, o.data) + tuple(str(f) for f in o.fields))
+        elif o.kind in ("call", "agg"):
+            out.add(("site", body.id, o.site.bb, o.site.si))
+        elif o.kind in ("undef", "partial"):
+            continue
+        else:
+            out.add(("?", o.kind))
+    return out
